@@ -615,4 +615,8 @@ def units(tier):
     pop.prop, pop.name = 'C12', 'C12.queue.fifo-pop'
     rl = c11.RunLoop()
     rl.prop, rl.name = 'C12', 'C12.lock.run-loop'
-    return [CallSites(), WritePacketLock(), DisconnectFlush(), wf, pop, rl, Threads()]
+    from . import c16
+    cm = c16.ConnectModel()
+    # "exactly once" needs a queue that never discards: the deque _connect creates is unbounded (connect.queue-unbounded)
+    cm.prop, cm.name = 'C12', 'C12.queue.created-unbounded'
+    return [CallSites(), WritePacketLock(), DisconnectFlush(), wf, pop, rl, Threads(), cm]
